@@ -34,7 +34,7 @@ class C02(Prop):
     quick_budget = 260
     thorough_budget = 6000
     rule = ("manifests built through Image()/Images.add from generated specs (every image type x format round-robin, every binary "
-            "arch of RPM_ARCHES, 0-6 images per cell with distinct paths in non-sorted insertion order, sizes > 2^32 up to 2^64+3, "
+            "arch of RPM_ARCHES, 0-6 images per cell with distinct paths in non-sorted insertion order, images removed again through the public containers (emptied cells, variants without arches, deleted variants, re-adds), sizes > 2^32 up to 2^64+3, "
             "null / non-empty volume ids, null / 32-hex md5, 1-3 checksum types, unified with additional variants, objects shared "
             "between cells, header 0.0/1.0/1.1/1.2/2.0): real dumps bytes == model bytes, real loads snapshot == model == spec "
             "(all 15 attributes per cell as multisets, compose), second dump byte-identical; non-trivial = written manifest with >= 1 image")
@@ -91,6 +91,9 @@ class C02(Prop):
                 img[f] = val
                 if rng.random() < 0.3:
                     spec["compose"][rng.choice(["date", "id", "respin"])] = rng.choice([None, "x", 5])
+            if rng.random() < 0.18 and spec["adds"]:
+                # images removed again through the public containers: emptied cells, variants without arches, re-adds
+                spec["edits"] = F.gen_edits(rng, spec)
             yield {"op": "cycle", "args": {"spec": spec}}
 
     # ------------------------------------------------------------------ real side
@@ -150,7 +153,8 @@ class C02(Prop):
         spec = case["args"]["spec"]
         if real_out.get("build") != "ok" or "ok" not in real_out.get("dumps", {}):
             return None                                   # the library did not agree to write
-        facts = {"identity_collisions": F.uniq_violations([spec["pool"][i] for i in sorted(set(a[2] for a in spec["adds"]))]),
+        filed = sorted(set(i for d in F.cells_of_spec(spec).values() for c in d.values() for i in c))
+        facts = {"identity_collisions": F.uniq_violations([spec["pool"][i] for i in filed]),
                  "built_under_version": spec["version"], "bool_in_int_fields": bool_ints(spec)}
         lo = real_out.get("loads", {})
         if "ok" not in lo:
@@ -189,6 +193,11 @@ class C02(Prop):
         inc("images", len(spec["pool"])); inc("filings", len(spec["adds"]))
         inc("shared_objects", sum(1 for i in range(len(spec["pool"])) if len(set((a[0], a[1]) for a in spec["adds"] if a[2] == i)) > 1))
         inc("version:" + str(spec["version"]))
+        if spec.get("edits"):
+            inc("with_edits")
+            cells = F.cells_of_spec(spec)
+            inc("empty_cells", sum(1 for d in cells.values() for c in d.values() if not c))
+            inc("variants_without_arches", sum(1 for d in cells.values() if not d))
         inc("dumps:" + ("ok" if "ok" in real_out.get("dumps", {}) else str(real_out.get("dumps", real_out.get("build")))))
         inc("unified", sum(1 for i in spec["pool"] if i.get("unified") is True))
         inc("size>2^32", sum(1 for i in spec["pool"] if isinstance(i.get("size"), int) and i["size"] > 2 ** 32))
@@ -208,10 +217,17 @@ class C02(Prop):
         for i in range(len(spec["adds"])):
             s = copy.deepcopy(spec)
             del s["adds"][i]
-            used = sorted(set(a[2] for a in s["adds"]))
+            s["edits"] = F.valid_edits(s["pool"], s["adds"], s.get("edits", []))
+            used = sorted(set(a[2] for a in s["adds"]) | set(e[3] for e in s["edits"] if e[0] in ("add", "discard")))
             remap = dict((old, new) for new, old in enumerate(used))
             s["pool"] = [s["pool"][o] for o in used]
             s["adds"] = [[a[0], a[1], remap[a[2]]] for a in s["adds"]]
+            s["edits"] = [(e[:3] + [remap[e[3]]] if e[0] in ("add", "discard") else e) for e in s.get("edits", [])]
+            s["edits"] = F.valid_edits(s["pool"], s["adds"], s["edits"])
+            out.append({"op": "cycle", "args": {"spec": s}})
+        for i in range(len(spec.get("edits", []))):
+            s = copy.deepcopy(spec); del s["edits"][i]
+            s["edits"] = F.valid_edits(s["pool"], s["adds"], s["edits"])
             out.append({"op": "cycle", "args": {"spec": s}})
         if spec["compose"].get("label"):
             s = copy.deepcopy(spec); s["compose"]["label"] = None; s["compose"]["final"] = False
@@ -223,6 +239,6 @@ PROP = C02()
 
 MANIFEST = dict(
     technique="Lean 4 proof over an executable model of images.py (serialize / deserialize / add mirrored statement by statement, validators and version gates regenerated from the source) + byte-exact differential check of dumps/loads against the real library + round-trip oracle on the real library",
-    text="Theorem C02_readback_partial: for every manifest (any number of variants, arches, images per cell, objects filed in several cells) whose compose section and images validate (generated rule lists), whose cells are keyed by admissible arches, whose integer attributes are ints and which satisfies identity uniqueness, serialize succeeds, deserialize of the written document succeeds, and the manifest read holds exactly the same multiset of (variant, arch, 15-attribute record) filings (C02_cells per cell, C02_all overall), compose section in normal form (C02_compose_norm_id: identity when a label is set or final is False), current version; C02_cycle_closed: the result satisfies the hypotheses again. C02_image_roundtrip / C02_compose_roundtrip are the field-level statements. C02_fixpoint: with distinct paths inside every cell the re-read manifest is written to a document with the same canonical form, hence the same bytes (the image table is a function of the multiset of filings: toPy_canon_perm); C02_bytes: dumps -> loads -> dumps returns the identical text, with json.load o print = id as explicit hypothesis. Hypotheses are necessary: C02_F11_witness, C02_bool_int_witness (decide).",
+    text="Theorem C02_readback_partial: for every manifest (any number of variants, arches, images per cell, objects filed in several cells) whose compose section and images validate (generated rule lists), whose cells are keyed by admissible arches, whose integer attributes are ints and which satisfies identity uniqueness, serialize succeeds, deserialize of the written document succeeds, and the manifest read holds exactly the same multiset of (variant, arch, 15-attribute record) filings (C02_cells per cell, C02_all overall), compose section in normal form (C02_compose_norm_id: identity when a label is set or final is False), current version; C02_cycle_closed: the result satisfies the hypotheses again. C02_image_roundtrip / C02_compose_roundtrip are the field-level statements. C02_fixpoint: with distinct paths inside every cell the re-read manifest is written to a document with the same canonical form, hence the same bytes (the image table is a function of the multiset of filings: toPy_canon_perm); C02_bytes: dumps -> loads -> dumps returns the identical text, with json.load o print = id as explicit hypothesis. C02_empty_cells_not_written / C02_document_of_filings: cells may be empty sets and variants may lack arches (images removed through the public containers); the writer emits a key exactly for variants / (variant, arch) pairs that have a filing and never an empty list, and the document depends on the manifest only through its filings. Hypotheses are necessary: C02_F11_witness, C02_bool_int_witness (decide).",
     note="JSON parser not modelled (document-level statement; parser exercised by every generated case). F11: a manifest with an identity collision built under a pre-1.1 header is written but refused on reload (known finding).",
     ref="7/C02")
